@@ -317,43 +317,21 @@ def sh(f):
     return f.extra.get("shape", {})
 
 
+# Only defects still open on the tree with all approved fixes.  The repaired classes (F13-empty-section,
+# F13-select-multiple-ref, F20, F26, F27, F31, F32, F33, F34-entities-no-dataset, F39-F43) have no matcher any more:
+# their directed reproductions stay in stream D, so a regression comes back as a VIOLATION.
 MATCHERS = {
-    "F13-empty-section": lambda f: crash(f, {"TypeError"}, r"^section\.py:validate$") and sh(f).get("empty_section"),
-    "F13-select-multiple-ref": lambda f: crash(f, {"KeyError"}, r"^xls2json\.py:workbook_to_json$")
-    and sh(f).get("select_multiple_ref") and "${" in f.extra.get("msg", ""),
     "F13-select-one-external-unlisted": lambda f: crash(f, {"KeyError"}, r"^xls2json\.py:add_choices_info_to_question$")
     and sh(f).get("select_external_unlisted"),
     "F14-header-shape": lambda f: f.kind == "internal-exception" and bool(sh(f).get("odd_headers"))
     and TYPE_CONFUSION.search(f.extra.get("msg", "")) is not None,
-    "F20-clean-text-off-choice-row": lambda f: crash(f, {"KeyError"}, r"^choices\.py:validate_choice_list$")
-    and sh(f).get("ctv_off") and "__row" in f.extra.get("msg", ""),
     "F22-settings-internal-slot": lambda f: f.kind == "internal-exception" and bool(sh(f).get("odd_settings"))
     and TYPE_CONFUSION.search(f.extra.get("msg", "")) is not None,
-    "F26-extra-sheet": lambda f: crash(f, {"TypeError"}, r"^xls2json_backends\.py:") and "unexpected keyword" in f.extra.get("msg", "")
-    and f.extra.get("via") in ("dict_raw", "csv_raw"),
-    "F27-md-ragged": lambda f: crash(f, {"IndexError"}, r"^xls2json_backends\.py:(list_to_dicts|process_md_data|md_to_dict)")
-    and f.extra.get("via") == "md_raw",
     "F30-deep-nesting": lambda f: f.kind == "internal-exception" and f.extra.get("exc") == "RecursionError"
     and sh(f).get("depth", 0) > 100,
-    "F31-or-other-unlabeled": lambda f: crash(f, {"KeyError"}, r"^xls2json\.py:workbook_to_json$")
-    and sh(f).get("or_other_unlabeled") and "'label'" in f.extra.get("msg", ""),
-    "F32-external-in-repeat": lambda f: crash(f, {"AttributeError"}, r"^section\.py:(generate_repeating_template|xml_instance_array)$")
-    and sh(f).get("external_in_repeat") and "ExternalInstance" in f.extra.get("msg", ""),
-    "F33-search-on-ref-select": lambda f: crash(f, {"AttributeError"}, r"^survey\.py:_redirect_is_search_itext$")
-    and sh(f).get("search_on_ref_select"),
-    "F40-search-unlabeled-choice": lambda f: crash(f, {"TypeError"}, r"^utils\.py:<genexpr>$")
-    and "insert_output_values" in " ".join(f.extra.get("sites", [])) and sh(f).get("search_unlabeled_choice"),
-    "F34-entities-no-dataset": lambda f: crash(f, {"KeyError"}, r"^entities_parsing\.py:get_validated_dataset_name$")
-    and sh(f).get("entities_no_dataset"),
     "F34-survey-internal-column": lambda f: f.kind == "internal-exception" and bool(sh(f).get("internal_cols"))
-    and crash(f, {"KeyError", "AttributeError", "TypeError"}, r"^(builder|survey_element|section|question|survey|utils)\.py:|^xls2json\.py:add_flat_annotations$"),
-    "F41-blank-cell-before-grouped-column": lambda f: f.kind == "internal-exception" and sh(f).get("blank_before_grouped")
-    and f.extra.get("exc") in ("AttributeError", "TypeError") and "NoneType" in f.extra.get("msg", ""),
-    "F42-default-language-column-twice": lambda f: sh(f).get("default_lang_twice")
-    and (crash(f, {"TypeError"}, r"^survey\.py:insert_output_values$") or crash(f, {"KeyError"}, r"^survey\.py:itext$")),
-    "F43-reference-to-root": lambda f: crash(f, {"IndexError"}, r"^survey\.py:_relative_path$") and sh(f).get("ref_to_root"),
-    "F39-empty-reference": lambda f: f.kind in ("not-located", "accepted-broken")
-    and f.extra.get("mutation") in ("malformed_ref", "malformed_ref_choice") and "${}" in str(f.extra.get("site")),
+    and crash(f, {"KeyError", "AttributeError", "TypeError"},
+              r"^(builder|survey_element|section|question|survey|utils)\.py:|^xls2json\.py:add_flat_annotations$"),
 }
 
 # ------------------------------------------------------------------------------- running one case
